@@ -21,19 +21,22 @@ class NotifyServer:
 
         while True:
             try:
-                data = await reader.read(32)
-                if not data:
-                    break
+                # ids are fixed-size records: read() may return a partial one
+                data = await reader.readexactly(32)
                 self.log.debug(
                     "Broadcasting %s to %s connections",
                     data.hex(),
                     len(self.connections) - 1,
                 )
 
-                for peer in self.connections.values():
+                # drain() can suspend: iterate over a copy of the peers
+                for peer in list(self.connections.values()):
                     if peer != writer:
                         peer.write(data)
                         await peer.drain()
+            except asyncio.IncompleteReadError:
+                # peer closed the connection
+                break
             except asyncio.exceptions.CancelledError:
                 writer.close()
                 break
@@ -80,13 +83,15 @@ class NotifyClient:
 
         while True:
             try:
-                data = await reader.read(32)
-                if not data:
-                    break
+                # ids are fixed-size records: read() may return a partial one
+                data = await reader.readexactly(32)
                 event = await self.storage.get_event(data.hex())
                 if event:
                     self.log.debug("Got %s", data.hex())
                     await self.storage.notify_all_connected(event)
+            except asyncio.IncompleteReadError:
+                # server closed the connection
+                break
             except asyncio.exceptions.CancelledError:
                 self.writer.close()
                 break
